@@ -88,6 +88,15 @@ CLAIMED = {
         "Tie: the parser's options/has_option/get asserted on the AST; keys iterated and interpolated values of every section compared with the model; templated vs hand-substituted file tabulations compared. Known finding C15-shadow (own-section option shadows a variable of the same name).",
    note="Trusted: Coq kernel; the stdlib's ExtendedInterpolation is an oracle whose assumed behaviour is `interp` (compared on every run); partial: the interpolation engine itself is not verified. No axioms.",
    technique="Coq proof over a store/interpolation model + vm_compute correspondence", ref="DESIGN.md section 4 C15"),
+ 'C16': dict(
+   text="Coq theorems over model/Validate.v (potable models after lexing: definitions as trees of ranges, form instances and modifiers with labels resolved against the registered forms -- standard arities regenerated from the signatures -- plus target, sections, key styles and table-form states): "
+        "the implementation's checks accept exactly the declarative grammar of the manual (c16_accepts_iff_wf, c16_definitions: mutual induction over nested definitions), so a table is written for every well-formed model, every other model is a configuration error and there is no third outcome (c16_outcome); "
+        "every catalogue malformation (unknown form / modifier / target, wrong parameter count, spline keyword outside spline, trans arity and shift, spline part count / type / parameters / r_min range incl. the end points / range order / argument count, missing sections, key styles, unusable table forms) invalidates the piece it hits, "
+        "and an invalid piece invalidates whatever contains it at any depth (c16_instances, c16_modifiers, c16_spline_middle, c16_containment, c16_sections, c16_density_keys). "
+        "Tie: regenerated arities + assertions of the argument-count check, trans / spline validation, _is_vararg_signature, potable main() and the exception hierarchy; validate compared with Configuration().read on generated well-formed models over all eleven targets and one catalogue mutation of each, a sample through the potable CLI; "
+        "text-level malformations (non-numeric tokens, placeholders, not-an-INI-file, signatures, formulas, table data, grid options, [Species]) by the oracle.",
+   note="Trusted: Coq kernel (no axioms); hand-written model tied by generated arities, AST assertions and outcome comparison; lexing by generation; malformations below the model's lexical level are oracle-only (tests, not theorems); numeric failures of well-formed models skipped. Known finding: non-finite grid values accepted.",
+   technique="Coq proof (decision procedure = declarative grammar, by mutual induction; catalogue lemmas) + vm_compute correspondence on generated models and mutations", ref="DESIGN.md section 4 C16"),
  'C17': dict(
    text="Coq theorem (lib/Effects.v): for a writer whose effects are 'all evaluations, then one write of the whole table', a fault at ANY evaluation position k leaves nothing written, for every layout (instantiated for all targets); a piecewise writer (GULP / ADP before their repair) is refuted in Coq. "
         "Tie: on every run the recorded interleaving of evaluations and write() calls of every writer must be exactly that sequence, a fault is injected at every evaluation position of small generated tables, and potable is run on every target with a formula that leaves its domain part-way (exit status, output file empty or absent).",
